@@ -128,8 +128,9 @@ fn sweep_topo(s: &Sweep) -> Topo {
 fn alter_applies(cell: &Cell, a: Alter) -> bool {
     match a {
         Alter::DestAddr | Alter::FixedPort | Alter::Protocol => cell.proto != Proto::Icmp || a == Alter::Protocol,
+        Alter::FixedPortDest => cell.proto != Proto::Icmp && cell.ports == Ports::FixedBoth,
         Alter::FlowPort => cell.proto == Proto::Udp && cell.strategy != MultipathStrategy::Classic && cell.ports != Ports::FixedBoth,
-        Alter::Magic => cell.proto == Proto::Udp && cell.strategy == MultipathStrategy::Dublin && cell.v6,
+        Alter::Magic | Alter::MagicShort(_) => cell.proto == Proto::Udp && cell.strategy == MultipathStrategy::Dublin && cell.v6,
         Alter::IcmpId => cell.proto == Proto::Icmp,
     }
 }
@@ -204,9 +205,11 @@ pub fn replay(path: &str) -> i32 {
         "Some(DestAddr)" => Some(Alter::DestAddr),
         "Some(FixedPort)" => Some(Alter::FixedPort),
         "Some(FlowPort)" => Some(Alter::FlowPort),
+        "Some(FixedPortDest)" => Some(Alter::FixedPortDest),
         "Some(Protocol)" => Some(Alter::Protocol),
         "Some(Magic)" => Some(Alter::Magic),
         "Some(IcmpId)" => Some(Alter::IcmpId),
+        x if x.starts_with("Some(MagicShort(") => Some(Alter::MagicShort(x.trim_start_matches("Some(MagicShort(").trim_end_matches("))").parse().expect("MACHINERY: MagicShort"))),
         _ => None,
     };
     let sw = Sweep {
@@ -263,7 +266,10 @@ pub fn run(args: &Args) -> i32 {
             sweeps.push(Sweep { cell, init, rounds: target_rounds.min(if init == 64511 { 1200 } else { usize::MAX }), offset: 0, target_mode: true, alter: None, packet_size: size });
         }
         // negative half
-        for a in [Alter::DestAddr, Alter::FixedPort, Alter::Protocol, Alter::Magic, Alter::IcmpId, Alter::FlowPort] {
+        for a in [
+            Alter::DestAddr, Alter::FixedPort, Alter::FixedPortDest, Alter::Protocol, Alter::Magic, Alter::IcmpId, Alter::FlowPort,
+            Alter::MagicShort(0), Alter::MagicShort(1), Alter::MagicShort(2), Alter::MagicShort(3), Alter::MagicShort(4), Alter::MagicShort(5),
+        ] {
             if !alter_applies(&cell, a) {
                 continue;
             }
@@ -364,7 +370,7 @@ pub fn run(args: &Args) -> i32 {
     rep.set("min_distinct_sequences_per_cell", json!(min_cov));
     rep.set("cells_with_full_sequence_range", json!(full_cov));
     rep.observe("quotations_with_altered_flow_port_accepted", json!(flow_port));
-    rep.set("rule", json!(format!("56 cells; the real strategy (first_ttl 1, max_ttl 254, max_inflight 255, initial_sequence 0) runs until the allocator wraps, so every sequence it can issue (0..=65276, Dublin/IPv6: 0..=765) is emitted by real dispatch code and answered at once by a hop with quotation shape (ttl-1+offset) mod {NSHAPES} ({{hdr+8,+28,+64,full,unreachable,ttl 0,cksum 0,tos,outer IHL 6/15,RFC4884 compliant/legacy,combo}}); quick: one shape offset per cell, thorough: all {NSHAPES} offsets = full product sequence x shape; + boundary initial sequences, 1024-octet probes (truncated quotations), target-originated answers one probe per round (Echo Reply / port unreachable / SYN-ACK). Oracle: ground-truth check of every published slot (C01's). Negative half: every response altered in one identity field (destination, pinned port, protocol, Dublin magic, ICMP identifier): no slot may complete. + tcp cells x {{L2,L3,silent-mid,dup}} x connect timeout {{5,15,25,35}} ms, all executions with <= 2 (3 thorough) deviations (attempts expiring while younger ones complete). distinct_nontrivial = recognised answers + altered quotations")));
+    rep.set("rule", json!(format!("56 cells; the real strategy (first_ttl 1, max_ttl 254, max_inflight 255, initial_sequence 0) runs until the allocator wraps, so every sequence it can issue (0..=65276, Dublin/IPv6: 0..=765) is emitted by real dispatch code and answered at once by a hop with quotation shape (ttl-1+offset) mod {NSHAPES} ({{hdr+8,+28,+64,full,unreachable,ttl 0,cksum 0,tos,outer IHL 6/15,RFC4884 compliant/legacy,combo}}); quick: one shape offset per cell, thorough: all {NSHAPES} offsets = full product sequence x shape; + boundary initial sequences, 1024-octet probes (truncated quotations), target-originated answers one probe per round (Echo Reply / port unreachable / SYN-ACK). Oracle: ground-truth check of every published slot (C01's). Negative half: every response altered in one identity field (destination, pinned port - each of the two when both are pinned -, protocol, Dublin magic - one octet flipped, or a foreign datagram carrying only the first 0..5 octets of it -, ICMP identifier): no slot may complete. + tcp cells x {{L2,L3,silent-mid,dup}} x connect timeout {{5,15,25,35}} ms, all executions with <= 2 (3 thorough) deviations (attempts expiring while younger ones complete). distinct_nontrivial = recognised answers + altered quotations")));
     for s in samples {
         rep.sample(s);
     }
